@@ -259,6 +259,26 @@ theorem SigFrame.isSome {w w' : World} {p : SlabID} (h : SigFrame w w' p) {z : S
   have := h z hz
   cases h1 : w.cont? z <;> cases h2 : w'.cont? z <;> simp_all
 
+/-! ### the moved containers -/
+
+theorem moved_child (x : SlabID) (wr : Nat) (old : Option Elem) : Moved (some (WVal.child x wr)) old x :=
+  Or.inl ⟨wr, rfl⟩
+
+theorem moved_old {o : Elem} {z : SlabID} (v : Option WVal) (h : o.pay = .ref z) : Moved v (some o) z :=
+  Or.inr ⟨o, rfl, h⟩
+
+/-- a moved container is the stored child or the container the old element referred to -/
+theorem Moved.cases {v : Option WVal} {old : Option Elem} {z : SlabID} (h : Moved v old z) :
+    (∃ wr, v = some (.child z wr)) ∨ (∃ o, old = some o ∧ o.pay = .ref z) := h
+
+theorem not_moved_plain {e : Elem} {z : SlabID} : ¬ Moved (some (WVal.plain e)) none z := by
+  rintro (⟨wr, h⟩ | ⟨o, h, _⟩) <;> cases h
+
+/-- the entry of the index table that the caller-side clean-up drops belongs to a moved container -/
+theorem HKeep.of_erase {E : SlabID → Prop} {w w' : World} (hT : w'.T = w.T) (hc : ∀ z, w'.cont? z = w.cont? z)
+    (hh : w'.hinfo = w.hinfo) (hidx : ∀ q z, ¬ E z → AList.find? (w'.idxOf q) z = AList.find? (w.idxOf q) z) :
+    HKeep E w w' := HKeep.of_idx hT hc hh hidx
+
 /-! ### the rank-relative frame of an operation (internal form of `AncFrame`) -/
 
 /-- frame of an operation through the handle of `p`, relative to a rank function of the world
